@@ -9,6 +9,7 @@ import (
 	"net"
 	"sort"
 	"strings"
+	"time"
 
 	"github.com/pascaldekloe/mqtt"
 )
@@ -345,11 +346,24 @@ func (a *actor) runReader(t *thread) {
 		if errors.Is(err, mqtt.ErrClosed) {
 			return
 		}
-		if err != nil && !d.Big && rs.Backoff {
+		if rs.Backoff {
 			ch := c.ReadBackoff(err)
+			if err == nil || d.Big {
+				// no backoff: the channel must be closed already
+				select {
+				case <-ch:
+				default:
+					a.later(func() { w.ev(Event{K: "backoff", T: a.spec.Name, N: -1, R: d.Class}) })
+				}
+				continue
+			}
+			t0 := time.Now()
 			if ch != nil {
 				<-ch
 			}
+			ms := int(time.Since(t0) / time.Millisecond)
+			cls := d.Class
+			a.later(func() { w.ev(Event{K: "backoff", T: a.spec.Name, N: ms, R: cls}) })
 		}
 	}
 }
